@@ -8,6 +8,7 @@ from __future__ import unicode_literals
 
 from django_evolution.compat import six
 from django_evolution.compat.models import get_model_name
+from django_evolution.errors import EvolutionException
 from django_evolution.models import Evolution
 from django_evolution.support import supports_migrations
 from django_evolution.utils.apps import get_app_label
@@ -314,11 +315,35 @@ class DependencyGraph(object):
                         # We'll mark that we've processed this, so we don't
                         # re-scan the dependencies again.
                         stack.append(node)
-                        stack += sorted(node.dependencies,
-                                        key=lambda dep: dep.insert_index,
-                                        reverse=True)
-
                         processed.add(node)
+
+                        for dep in sorted(node.dependencies,
+                                          key=lambda dep: dep.insert_index,
+                                          reverse=True):
+                            if dep in processed and dep not in visited:
+                                # This dependency is still waiting on its
+                                # own dependencies, which means it's one of
+                                # this node's ancestors in the walk. These
+                                # requirements can't all be satisfied.
+                                raise EvolutionException(
+                                    'A circular dependency was found: "%s" '
+                                    'and "%s" each (directly or indirectly) '
+                                    'require the other to be applied first.'
+                                    % (node.key, dep.key))
+
+                            stack.append(dep)
+
+        if len(result) != len(self._nodes):
+            # Every node in a graph without cycles is reachable from a leaf
+            # node. Anything left over is part of a cycle.
+            raise EvolutionException(
+                'A circular dependency was found between: %s'
+                % ', '.join(
+                    '"%s"' % node.key
+                    for node in sorted(six.itervalues(self._nodes),
+                                       key=lambda node: node.insert_index)
+                    if node not in result_set
+                ))
 
         return result
 
